@@ -15,7 +15,7 @@ func LSDString(a []string, w int) {
 
 		// compute frequency counts
 		for _, s := range a {
-			count[s[d]+1]++
+			count[int(s[d])+1]++
 		}
 
 		// compute cumulative counts
